@@ -93,7 +93,12 @@ def r1(cx, rec):
         if end:
             # the chunk taken from the file's last piece is `end offset - bytes skipped` long: a length that is the end offset
             # alone over-reads whenever the file starts inside the same piece
-            diff = [x for x in d if re.match(r'^Sub(WithOverflow)?\(', x) and re.search(r'\.2\.%s, ' % OFF, x)]
+            data = e[2][1]
+            while data[0] == 'call' and data[4].get('name') in ('as_slice', 'as_ref', 'deref', 'as_mut_slice', 'borrow') and data[2]:
+                data = data[2][0]
+            init = mirq.init_of(data)
+            diff = [x for x in walk(init, inl=False) if x[0] == 'binop' and x[1].replace('WithOverflow', '').replace('Unchecked', '') == 'Sub'
+                    and re.search(r'\.2\.%s$' % OFF, access_path(x[2]) or '')]
             rec.need(bool(diff), 'last-chunk-length', E, bb,
                      'the bytes written from the file\'s last piece are not limited to `end offset - skipped bytes`: a file that starts '
                      'inside that piece receives bytes that belong to the following files')
